@@ -18,14 +18,28 @@ def cls_expr(i, trunc=0, strip8=False, fold=False, blanks=False, nul="allow", re
         i, trunc, *(str(x).upper() for x in (strip8, fold, blanks)), nul, str(reject).upper(), str(disabled).upper())
 
 
-#: model classes (trunc = 3 model bytes stands for the real limit; γ places it with a filler prefix)
-CLASSES = {
-    "exact": cls_expr("exact"), "exact_nulrej": cls_expr("exact_nulrej", nul="reject"),
-    "trunc": cls_expr("trunc", trunc=3, nul="reject"), "trunc_nulok": cls_expr("trunc_nulok", trunc=3),
-    "des": cls_expr("des", trunc=3, strip8=True, nul="reject"), "des_all": cls_expr("des_all", strip8=True, nul="reject"),
-    "lm": cls_expr("lm", trunc=3, fold=True), "fold": cls_expr("fold", fold=True), "blanks": cls_expr("blanks", blanks=True),
-    "reject": cls_expr("reject", trunc=3, reject=True), "dis": cls_expr("dis", disabled=True),
-}
+#: model classes (trunc = TM model bytes stands for the real limit; γ places it with a filler prefix).  TM is 3 in the thorough tier
+#: (passwords of up to 3 model symbols) and 2 in the quick tier (up to 2 symbols), so that one-byte symbols cross the limit in both
+TM = [3]
+
+
+def classes():
+    t = TM[0]
+    return {
+        "exact": cls_expr("exact"), "exact_nulrej": cls_expr("exact_nulrej", nul="reject"),
+        "trunc": cls_expr("trunc", trunc=t, nul="reject"), "trunc_nulok": cls_expr("trunc_nulok", trunc=t),
+        "des": cls_expr("des", trunc=t, strip8=True, nul="reject"), "des_all": cls_expr("des_all", strip8=True, nul="reject"),
+        "lm": cls_expr("lm", trunc=t, fold=True), "fold": cls_expr("fold", fold=True), "blanks": cls_expr("blanks", blanks=True),
+        "reject": cls_expr("reject", trunc=t, reject=True), "dis": cls_expr("dis", disabled=True),
+    }
+
+
+class _Classes(dict):
+    def __getitem__(self, k):
+        return classes()[k]
+
+
+CLASSES = _Classes()
 
 #: documented class of every hasher: (model class, real limit, flags)   flags: t = text only (bytes must be valid UTF-8 / ASCII),
 #: n = NUL policy undocumented (either answer accepted), u = needs user, e = needs encoding-safe symbols only (no multi-byte)
@@ -70,7 +84,7 @@ def error_class(e):
 
 def emit_cases(chk, klass, mode, quick, seed):
     """TLC: all (p, near q) pairs for one model class; returns the emitted transitions grouped by (te, p)"""
-    consts = dict(Classes=tlc.Raw("{" + CLASSES[klass] + "}"), Sy=set(SYMS) - (set() if klass == "blanks" else BLANK_SYMS), MaxP=2 if quick else 3, MaxLen=3 if mode == "size" else 50, DoEmit=True)
+    consts = dict(Classes=tlc.Raw("{" + CLASSES[klass] + "}"), Sy=set(SYMS) - (set() if klass == "blanks" else BLANK_SYMS), MaxP=2 if quick else 3, MaxLen=TM[0] if mode == "size" else 50, DoEmit=True)
     r = tlc.run_instance("MC_HashVerify", consts, name=f"{chk.pid}_emit", invariants=INVS, action_constraint="Emit", workers=1, coverage=False, timeout=1800)
     chk.add_tlc(f"MC_HashVerify emitting class={klass} mode={mode}", r)
     groups = {}
@@ -177,6 +191,26 @@ def edge_passwords(chk, name, h, w, klass, flags):
                     chk.violation(f"{name}:edge:genhash:{type(e).__name__}", f"{name} (ident {ident}): genhash(pw, its own hash) raised {type(e).__name__}: {e}", {"hasher": name, "hash": stored})
             if res != (True, False, True):
                 chk.violation(f"{name}:edge:{ident or '-'}:{res}", f"{name} (ident {ident}): password {pw!r} / near miss {other!r} verify as {res}", {"hasher": name, "ident": ident, "hash": stored})
+
+
+def expanding_fold_edges(chk, name, h, flags):
+    """case-folding formats: passwords that differ in a character are different passwords also when folding the case makes the text
+    longer (sharp s) or the differing character sits right behind an internal block boundary (7 characters for LM)"""
+    ctxkw = {"user": "user"} if "u" in flags else {}
+    pairs = [("Stra\xdfe1", "Stra\xdfe2"), ("\xdf" * 6 + "a", "\xdf" * 6 + "b"), ("abcdefg", "abcdefh"), ("abcdef\xdf", "abcdefs"), ("\xdfbcdefg1", "\xdfbcdefg2"),
+             ("abcdefgh", "abcdefgi"), ("abcdef\xe9", "abcdef\xe4")]
+    for a, b in pairs:
+        chk.count((name, "expanding-fold", a))
+        chk.action("expanding-fold")
+        try:
+            ha, hb = h.hash(a, **ctxkw), h.hash(b, **ctxkw)
+            res = (h.verify(a, ha, **ctxkw), h.verify(b, ha, **ctxkw), h.verify(b, hb, **ctxkw), h.verify(a, hb, **ctxkw))
+        except Exception as e:
+            res = f"{type(e).__name__}: {e}"[:100]
+        chk.evaluations += 4
+        if res != (True, False, True, False):
+            chk.violation(f"{name}:edge:fold:{res}", f"{name}: passwords {a!r} / {b!r} (they differ in one character) hash and cross-verify as {res}",
+                          {"hasher": name, "passwords": [a, b]})
 
 
 #: settings under which the shortest passwords are tried as well (one hash + verify each)
@@ -392,8 +426,9 @@ def run_shared(chk, focus):
     quick = chk.tier == "quick"
     rnd = random.Random(chk.seed)
     from passlib.context import CryptContext
+    TM[0] = 2 if quick else 3
     # 1. exhaustive model check over the class lattice
-    lattice = tlc.Raw("{" + ", ".join(CLASSES.values()) + "}")
+    lattice = tlc.Raw("{" + ", ".join(classes().values()) + "}")
     r = tlc.run_instance("MC_HashVerify", dict(Classes=lattice, Sy=set(SYMS) - BLANK_SYMS, MaxP=2 if quick else 3, MaxLen=5, DoEmit=False), name=f"{chk.pid}_mc",
                          invariants=INVS, action_constraint="Emit", coverage=False, timeout=1800)
     chk.add_tlc("MC_HashVerify exhaustive over the class lattice (all passwords x all near misses)", r)
@@ -413,6 +448,8 @@ def run_shared(chk, focus):
             if klass == "exact":          # (case-folding formats treat text and bytes differently by design)
                 encoding_edges(chk, name, h, flags)
             size_and_form_edges(chk, name, h, w, klass, flags)
+            if klass in ("lm", "fold"):
+                expanding_fold_edges(chk, name, h, flags)
         else:
             policy_edges(chk, name, h, w, klass, limit, flags)
         if getattr(w, "truncate_size", None) and klass not in ("des", "trunc", "lm", "reject", "trunc_nulok"):
@@ -427,11 +464,11 @@ def run_shared(chk, focus):
             # boundary-relevant passwords first: those whose byte length is around the model limit
             rnd.shuffle(keys)
             if klass in ("des", "trunc", "lm", "reject") or mode == "size":
-                keys.sort(key=lambda k: abs(sum(len(SYMS[s]) for s in k[1]) - 3))
+                keys.sort(key=lambda k: abs(sum(len(SYMS[s]) for s in k[1]) - TM[0]))
             chosen = keys[:per_hasher]
             if klass in ("des", "trunc", "lm", "reject") and mode == "trunc" and focus == "C05":
                 # every password whose BYTE length is limit-1, limit or limit+1 (1- and 2-byte characters), both policies
-                chosen = [k for k in keys if 2 <= sum(len(SYMS[x]) for x in k[1]) <= 4]
+                chosen = [k for k in keys if TM[0] - 1 <= sum(len(SYMS[x]) for x in k[1]) <= TM[0] + 1]
             ctxkw = {}
             if "u" in flags:
                 ctxkw["user"] = "user"
@@ -445,9 +482,9 @@ def run_shared(chk, focus):
                 if g["hash"] is None:
                     continue
                 if mode == "size":
-                    filler = b"x" * (4096 - 3)
+                    filler = b"x" * (4096 - TM[0])
                 elif klass in ("des", "trunc", "lm", "reject", "trunc_nulok"):
-                    filler = b"x" * (limit - 3)
+                    filler = b"x" * (limit - TM[0])
                 else:
                     filler = b"x" * rnd.choice([0, 0, 5, 53, 61, 125])
                 if "p" in flags and not p and not filler:
@@ -460,6 +497,13 @@ def run_shared(chk, focus):
                 if not syms_ok(p):
                     continue
                 pw = concretise(p, filler, True)
+                # settings drawn from the whole admissible space, case by case (the generated ones cover only part of it)
+                if name == "cisco_type7":
+                    settings = dict(salt=rnd.choice([rnd.randrange(53), rnd.randrange(16, 53), 52]))
+                elif name == "fshp":
+                    settings = dict(cheap_settings(name, h), variant=rnd.randrange(4))
+                elif getattr(w, "ident_values", None) and "ident" in h.setting_kwds and rnd.random() < .5:
+                    settings = dict(cheap_settings(name, h), ident=rnd.choice([i for i in w.ident_values if i not in ("$2x$", "$2$")]))
                 try:
                     hh = h.using(**settings, **({"truncate_error": True} if te else {})) if (settings or te) else h
                 except Exception as e:
@@ -507,6 +551,8 @@ def run_shared(chk, focus):
                     got_h = exp_h if got_h != "ok" else got_h       # (the real limit lies far below: not this mode's subject)
                     if stored is None:
                         continue
+                if exp_h == "NullOrTruncateError" and got_h in ("NullError", "TruncateError"):
+                    got_h = exp_h
                 if got_h != exp_h and not (nul_either and {got_h, exp_h} <= {"ok", "NullError"}):
                     chk.violation(f"{name}:hash:{exp_h}->{got_h}:{mode}{':te' if te else ''}",
                                   f"{name}.hash of a {len(pw)}-byte password ({tag}, truncate_error={te}) gave {got_h}, spec says {exp_h}", detail)
